@@ -271,6 +271,7 @@ func TestMC_C10(t *testing.T) {
 		"effective membership (used for the below-minimum clause and for naming the failing class only) = accepted nodes that are genesis or accepted more than 30 s before the timestamp, minus the node the real removingOrSlashingNodeAt predicts when the real fork gate is on",
 		"the intersection inequality itself is evaluated on the values returned by the real ConsensusThreshold and ConsensusKeys only",
 		"certificate part: honest CoSi certificates (real crypto) of every popcount around the thresholds are presented to the real verifyFinalization of a node that has finalized a removal; accepted => 3*(2*popcount-|K_used|) > |K_used| with K_used the key vector whose ids at the mask positions are the returned signers",
+		"history part: one long-running Node and one Chain object per sequence; every sequence over {query at 4 timestamps, 3 membership changes learned through the stub store + real LoadConsensusNodes} up to the depth bound is replayed from scratch and its last step is compared with a node freshly loaded from the same records (restart); certificates are honest CoSi certificates over the key vectors the two nodes report",
 		"schedule part: cooperative scheduler, one scheduling point before every top-level statement of LoadConsensusNodes and between the verifier's two reads; preemption bound 3")
 
 	// ---- configurations ----
@@ -430,6 +431,9 @@ func TestMC_C10(t *testing.T) {
 	// ---- the (threshold, key vector) pair verifyFinalization really uses ----
 	c10Certificates(c, nets, outcomes)
 
+	// ---- histories on one long-running node vs a restarted node ----
+	c10Histories(c, nets, outcomes)
+
 	// ---- membership reload racing a verifier (schedule exploration) ----
 	c10ReloadRace(c, nets, outcomes)
 
@@ -452,6 +456,7 @@ func TestMC_C10(t *testing.T) {
 		"cert:mainnet-prefork:legacy-retry:accepted", "cert:mainnet-prefork:signer-view:rejected", "cert:mainnet-prefork:current:accepted",
 		"cert:testnet:current:accepted", "cert:mainnet-postfork:current:accepted",
 		"race:threshold-then-keys:ok", "race:mixed-view-observed",
+		"history:compared", "history:view-changed-by-reload", "history:cert-accepted", "history:cert-rejected",
 	}
 	for _, k := range need {
 		c.Require(outcomes[k] > 0, "outcome class %q never reached (%v)", k, outcomes)
@@ -856,3 +861,331 @@ func c10ReloadRace(c *verifmc.Check, nets []c10Net, outcomes map[string]int64) {
 	c.Set("race_scenarios", int64(len(scens)))
 	c.Require(instrumented, "LoadConsensusNodes offers no scheduling points (yield instrumentation of kernel/node.go missing)")
 }
+
+// c10Histories: sequences of steps on ONE long-running node and ONE chain
+// object. Steps 0..3 query (key vector, threshold, verification of an
+// in-flight certificate) at 15:00 of day d, 20:00:01 of day d, 03:00 and
+// 15:00 of day d+1. Steps 4..6 append a membership record to the store and run
+// the real LoadConsensusNodes: removal of the oldest node at 19:59:30 of day d,
+// pledge of a new node at 22:00 of day d, its acceptance at 14:00 of day d+1
+// (each at most once, acceptance only after the pledge; the order in which the
+// node learns them is free). Every sequence up to the depth bound is replayed
+// from scratch; its last step is compared with a freshly loaded node.
+func c10Histories(c *verifmc.Check, nets []c10Net, outcomes map[string]int64) {
+	depth := verifmc.Pick(c, 3, 4)
+	const nQuery, nStep = 4, 7
+	stepNames := []string{"query@d15:00", "query@d20:00:01", "query@d+1,03:00", "query@d+1,15:00", "learn-removal@d19:59:30", "learn-pledge@d22:00", "learn-accept@d+1,14:00"}
+	type job struct {
+		net, n int
+		first  int
+	}
+	var jobs []job
+	for _, ni := range []int{0, 2} { // predictive signer set (non-mainnet) and legacy (mainnet before the fork)
+		for _, n := range []int{9, 10, 11} {
+			for f := 0; f < nStep; f++ {
+				jobs = append(jobs, job{ni, n, f})
+			}
+		}
+	}
+	type certKey struct {
+		net, n   int
+		ts       uint64
+		p, shape int
+		vec      crypto.Hash
+	}
+	var certMu sync.Mutex
+	certs := map[certKey]*common.Snapshot{}
+	vecHash := func(ids []crypto.Hash) crypto.Hash {
+		var b []byte
+		for _, id := range ids {
+			b = append(b, id[:]...)
+		}
+		return crypto.Blake3Hash(b)
+	}
+	getCert := func(net, n int, chainId crypto.Hash, ts uint64, ids []crypto.Hash, pubs []*crypto.Key, p, shape int) (*common.Snapshot, []int, error) {
+		positions := make([]int, p)
+		for i := range positions {
+			positions[i] = i
+			if shape == 1 {
+				positions[i] = len(ids) - p + i
+			}
+		}
+		k := certKey{net, n, ts, p, shape, vecHash(ids)}
+		certMu.Lock()
+		snap := certs[k]
+		certMu.Unlock()
+		if snap != nil {
+			return snap, positions, nil
+		}
+		snap, err := c10Cert(chainId, ts, fmt.Sprintf("c10-history|%d|%d|%d|%d|%d|%s", net, n, ts, p, shape, k.vec), pubs, positions)
+		if err != nil {
+			return nil, nil, err
+		}
+		certMu.Lock()
+		if old := certs[k]; old != nil {
+			snap = old
+		} else {
+			certs[k] = snap
+		}
+		certMu.Unlock()
+		return snap, positions, nil
+	}
+
+	var mu sync.Mutex
+	var sequences int64
+	c.ParallelN(len(jobs), "histories", func(_, ji int) {
+		j := jobs[ji]
+		net := nets[j.net]
+		d0 := net.epoch + c10QueryDay*c10Day
+		tss := []uint64{d0 + 15*c10Hour, d0 + 20*c10Hour + c10Second, d0 + 27*c10Hour, d0 + 39*c10Hour}
+		var base []c10Rec
+		for i := 0; i < j.n; i++ {
+			base = append(base, c10Rec{i, net.epoch, common.NodeStateAccepted})
+		}
+		chainId := zeroHashC10
+		oldestWho := -1
+		{
+			probe, err := c10BuildNode(net, base, true)
+			if err != nil {
+				c.Require(false, "history probe node: %v", err)
+				return
+			}
+			list := probe.NodesListWithoutState(d0, true)
+			for i := 0; i < j.n; i++ {
+				if c10Signers[i].Hash().ForNetwork(net.id) == list[0].IdForNetwork {
+					oldestWho = i
+				}
+			}
+			chainId = list[len(list)-1].IdForNetwork
+		}
+		mutation := func(step int) c10Rec {
+			switch step {
+			case 4:
+				return c10Rec{oldestWho, d0 + 20*c10Hour - c10Mature, common.NodeStateRemoved}
+			case 5:
+				return c10Rec{62, d0 + 22*c10Hour, common.NodeStatePledging}
+			default:
+				return c10Rec{62, d0 + 38*c10Hour, common.NodeStateAccepted}
+			}
+		}
+		local := map[string]int64{}
+		var evals, seqs int64
+		tail := make([]int, 0, depth)
+		var run func(seq []int)
+		run = func(seq []int) {
+			// enabledness: each change once, acceptance only after the pledge
+			used := map[int]bool{}
+			for _, st := range seq {
+				if st >= nQuery {
+					if used[st] || (st == 6 && !used[5]) {
+						return
+					}
+					used[st] = true
+				}
+			}
+			seqs++
+			name := ""
+			for i, st := range seq {
+				if i > 0 {
+					name += " ; "
+				}
+				name += stepNames[st]
+			}
+			recs := append([]c10Rec{}, base...)
+			node, err := c10BuildNode(net, recs, true)
+			if err != nil {
+				c.Require(false, "history node: %v", err)
+				return
+			}
+			node.cacheStore = c10NewCache()
+			defer node.cacheStore.Close()
+			chain := &Chain{node: node, ChainId: chainId}
+			store := node.persistStore.(*c10Store)
+			learn := func(st int) bool {
+				r := mutation(st)
+				recs = append(recs, r)
+				store.nodes = append(store.nodes, &common.Node{Signer: c10Signers[r.who], Payee: c10Payees[r.who], State: r.state,
+					Transaction: crypto.Blake3Hash([]byte(fmt.Sprintf("c10-tx-%d-%s-%d", r.who, r.state, r.ts))), Timestamp: r.ts})
+				var lerr error
+				if p := verifmc.Catch(func() { lerr = node.LoadConsensusNodes() }); p != nil || lerr != nil {
+					c.Require(false, "history %s/n=%d [%s]: reload failed: %v %v", net.name, j.n, name, p, lerr)
+					return false
+				}
+				return true
+			}
+			replay := func(ts uint64) map[string]any {
+				return map[string]any{"net": net.name, "n": j.n, "epoch": net.epoch, "sequence": name, "steps": append([]int{}, seq...), "compared_at": ts}
+			}
+			compare := func(ts uint64) {
+				var idsL, idsF []crypto.Hash
+				var pubsL, pubsF []*crypto.Key
+				tL, tF := 0, 0
+				fresh, ferr := c10BuildNode(net, recs, true)
+				if ferr != nil {
+					c.Require(false, "history fresh node: %v", ferr)
+					return
+				}
+				fresh.cacheStore = c10NewCache()
+				defer fresh.cacheStore.Close()
+				fchain := &Chain{node: fresh, ChainId: chainId}
+				if p := verifmc.Catch(func() {
+					idsL, pubsL = chain.ConsensusKeys(1, ts)
+					tL = node.ConsensusThreshold(ts, true)
+					idsF, pubsF = fchain.ConsensusKeys(1, ts)
+					tF = fresh.ConsensusThreshold(ts, true)
+				}); p != nil {
+					c.Require(false, "history %s/n=%d [%s]: query panicked: %v", net.name, j.n, name, p)
+					return
+				}
+				evals++
+				local["history:compared"]++
+				where := fmt.Sprintf("%s n=%d after [%s] at %d", net.name, j.n, name, ts)
+				sameKeys := c10SameIds(idsL, idsF)
+				if !sameKeys {
+					c.Violation("history:key-vector-differs-from-restarted-node", fmt.Sprintf("%s: the long-running node checks certificates against %d keys, a node restarted from the same ledger against %d", where, len(idsL), len(idsF)), replay(ts))
+				}
+				if tL != tF {
+					c.Violation("history:threshold-differs-from-restarted-node", fmt.Sprintf("%s: the long-running node uses threshold %d, a node restarted from the same ledger %d", where, tL, tF), replay(ts))
+				}
+				okL := tL > 64 || 3*(2*tL-len(idsL)) > len(idsL)
+				okF := tF > 64 || 3*(2*tF-len(idsF)) > len(idsF)
+				switch {
+				case !okL && okF:
+					c.Violation("history:keys-threshold-mismatch-after-reload", fmt.Sprintf("%s: the long-running node pairs threshold %d with %d keys (restarted node: %d with %d): two certificates may share only %d signers, not more than |K|/3", where, tL, len(idsL), tF, len(idsF), 2*tL-len(idsL)), replay(ts))
+				case !okL:
+					c.Violation("history:intersection-fail-also-on-restarted-node", fmt.Sprintf("%s: threshold %d with %d keys on both the long-running and the restarted node", where, tL, len(idsL)), replay(ts))
+				}
+				if tL > 64 {
+					local["history:below-minimum"]++
+					return
+				}
+				// honest certificates over the vectors the two nodes report
+				type vec struct {
+					ids  []crypto.Hash
+					pubs []*crypto.Key
+				}
+				vecs := []vec{{idsL, pubsL}}
+				if !sameKeys {
+					vecs = append(vecs, vec{idsF, pubsF})
+				}
+				pops := []int{tL - 1, tL}
+				if tF != tL && tF <= 64 {
+					pops = append(pops, tF)
+				}
+				for _, v := range vecs {
+					for _, p := range pops {
+						if p < 1 || p > len(v.ids) {
+							continue
+						}
+						for shape := 0; shape < 2; shape++ {
+							snap, positions, err := getCert(j.net, j.n, chainId, ts, v.ids, v.pubs, p, shape)
+							if err != nil {
+								c.Require(false, "history certificate: %v", err)
+								continue
+							}
+							var sigL, sigF []crypto.Hash
+							finL, finF := false, false
+							if pv := verifmc.Catch(func() {
+								sigL, finL = chain.verifyFinalization(snap)
+								sigF, finF = fchain.verifyFinalization(snap)
+							}); pv != nil {
+								c.Require(false, "history %s: verifyFinalization panicked: %v", where, pv)
+								continue
+							}
+							_ = sigF
+							evals++
+							if finL != finF {
+								c.Violation("history:verdict-differs-from-restarted-node", fmt.Sprintf("%s: an honest certificate of %d signers over %d keys is final=%v on the long-running node and final=%v on a node restarted from the same ledger", where, p, len(v.ids), finL, finF), replay(ts))
+							}
+							if !finL {
+								local["history:cert-rejected"]++
+								continue
+							}
+							local["history:cert-accepted"]++
+							k := 0
+							for _, cand := range vecs {
+								ok := len(sigL) == p
+								for i := 0; ok && i < p; i++ {
+									ok = positions[i] < len(cand.ids) && cand.ids[positions[i]] == sigL[i]
+								}
+								if ok {
+									k = len(cand.ids)
+									break
+								}
+							}
+							if k == 0 {
+								k = len(v.ids) // legacy retry vector: the certificate only verifies against the vector it was signed over
+							}
+							if !(3*(2*p-k) > k) {
+								c.Violation("history:verify:threshold-too-low", fmt.Sprintf("%s: verifyFinalization of the long-running node accepts an honest certificate of %d signers over %d keys (threshold %d, restarted node: threshold %d over %d keys): the two canonical certificates {0..%d} and {%d..%d} share only %d signers", where, p, k, tL, tF, len(idsF), p-1, k-p, k-1, 2*p-k), replay(ts))
+							}
+						}
+					}
+				}
+			}
+			for i, st := range seq {
+				last := i == len(seq)-1
+				switch {
+				case st >= nQuery:
+					// (fresh chain objects are used for this probe so that it is not a step of the history)
+					before, _ := (&Chain{node: node, ChainId: chainId}).ConsensusKeys(1, tss[3])
+					tb := node.ConsensusThreshold(tss[3], true)
+					if !learn(st) {
+						return
+					}
+					after, _ := (&Chain{node: node, ChainId: chainId}).ConsensusKeys(1, tss[3])
+					if !c10SameIds(before, after) || tb != node.ConsensusThreshold(tss[3], true) {
+						local["history:view-changed-by-reload"]++
+					}
+					if last {
+						for _, ts := range tss {
+							compare(ts)
+						}
+					}
+				case last:
+					compare(tss[st])
+				default:
+					// an in-flight snapshot at this timestamp: keys, threshold, one finalization attempt
+					ts := tss[st]
+					if p := verifmc.Catch(func() {
+						ids, pubs := chain.ConsensusKeys(1, ts)
+						t := node.ConsensusThreshold(ts, true)
+						if t <= len(ids) {
+							if snap, _, err := getCert(j.net, j.n, chainId, ts, ids, pubs, t, 0); err == nil {
+								chain.verifyFinalization(snap)
+							}
+						}
+					}); p != nil {
+						c.Require(false, "history %s/n=%d [%s]: step panicked: %v", net.name, j.n, name, p)
+						return
+					}
+				}
+			}
+			c.Distinct(fmt.Sprintf("history|%s|%d|%v", net.name, j.n, seq))
+		}
+		var rec func()
+		rec = func() {
+			run(append([]int{j.first}, tail...))
+			if len(tail)+1 >= depth {
+				return
+			}
+			for st := 0; st < nStep; st++ {
+				tail = append(tail, st)
+				rec()
+				tail = tail[:len(tail)-1]
+			}
+		}
+		rec()
+		c.Eval(evals)
+		mu.Lock()
+		for k, n := range local {
+			outcomes[k] += n
+		}
+		sequences += seqs
+		mu.Unlock()
+	})
+	c.Set("history_sequences", sequences)
+	c.Set("history_depth", int64(depth))
+}
+
+var zeroHashC10 crypto.Hash
